@@ -464,5 +464,26 @@ func main() {
 	bodyLimits(rep, scratch)
 	listenerWide(rep)
 	os.RemoveAll(scratch)
+	// two limits directives on one site: both apply, or the site is refused - a limit is never dropped silently
+	for _, cf := range []string{
+		"a.test:8080 {\n\tlimits {\n\t\tbody /a 10\n\t}\n\tlimits {\n\t\tbody /b 5\n\t}\n\tverif_probe\n}\n",
+		"a.test:8080 {\n\tlimits 10\n\tlimits {\n\t\tbody /b 5\n\t}\n\tverif_probe\n}\n",
+	} {
+		l, err := kit.Load(cf, "/nonexistent/Casketfile")
+		rep.Eval(1)
+		if err != nil {
+			rep.Class("two-limits-directives/refused")
+			continue
+		}
+		b := body(6)
+		raw := fmt.Sprintf("POST /b/x HTTP/1.1\r\nHost: a.test:8080\r\nX-Probe: readbody:1\r\nContent-Length: %d\r\n\r\n%s", len(b), b)
+		req, _ := kit.Req(raw)
+		rec, pv, _ := kit.ServeReq(l.Server(""), req)
+		if pv != nil || !strings.Contains(rec.Body.String(), "READ n=5 err=http: request body too large") {
+			rep.Violation("C17/body/limit-of-a-second-limits-directive-dropped", "a 6-byte body under /b was not cut at the 5 bytes that the site's second limits directive configures", limCase{cf, raw, "READ n=5 err=http: request body too large ...", rec.Body.String()})
+		}
+		l.Close()
+		rep.Class("two-limits-directives/both-applied")
+	}
 	rep.Finish()
 }
